@@ -128,8 +128,41 @@ def run(F, rep):
             g = F.funcs[k]
             if g.file.endswith('variable.cpp') and 'quivalent' in g.name:
                 rec_fs.append(g)
+    wl_fs = []
     if not rec_fs:
-        raise AnalysisBroken('no recursive equivalence search found in variable.cpp')
+        # the same search written with an explicit work list (while (!todo.empty()) { pop; test; mark; push neighbours })
+        for g in F.funcs.values():
+            if g.file.endswith('variable.cpp') and 'quivalent' in g.name:
+                for w in g.walk():
+                    m = re.match(r'^!(\w+)\.empty\(\)$', render(role(w, 'cond')).replace(' ', '')) if w.get('k') == 'While' else None
+                    if m:
+                        wl_fs.append((g, w, m.group(1)))
+        if not wl_fs:
+            raise AnalysisBroken('no recursive (or work-list) equivalence search found in variable.cpp')
+    for g, w, todo in wl_fs:
+        body = role(w, 'body')
+        pops = [n for n in walk(body) if n.get('k') == 'Call' and n.get('fn') in ('pop_back', 'pop', 'pop_front', 'erase') and path(receiver(n)) == todo]
+        pushes = [n for n in walk(body) if n.get('k') == 'Call' and n.get('fn') in ('push_back', 'emplace_back', 'push', 'insert') and path(receiver(n)) == todo]
+        finds = [n for n in walk(body) if n.get('k') == 'Call' and n.get('callee') in ('std::find', 'std::find_if', 'std::count')]
+        vnames = {r.get('n') for fn_ in finds for r in walk(fn_) if r.get('k') == 'Ref' and r.get('n') != todo and 'std::vector<' in (r.get('t') or '')}
+        marks = [n for n in walk(body) if n.get('k') == 'Call' and n.get('fn') in ('push_back', 'emplace_back', 'insert') and path(receiver(n)) in vnames]
+        rep.check(bool(pops) and bool(pushes) and bool(finds) and bool(marks), 'C18.V1', g.short + '|work-list', g.where(w),
+                  'work-list search over `%s`: %d pop(s), %d push(es), %d membership test(s), %d mark(s)' % (todo, len(pops), len(pushes), len(finds), len(marks)), 'work list `%s` with visited list %s' % (todo, sorted(vnames)))
+        # the search ends only when the target is found (return) or the work list is empty: a break abandons the entries still waiting
+        for b in walk(body):
+            if b.get('k') != 'Break':
+                continue
+            near = next((a for a in g.ancestors(b) if a.get('k') in ('While', 'For', 'RangeFor', 'Do', 'Switch')), None)
+            if near is w:
+                rep.fail('C18.V1', g.short + '|work-list-abandoned', g.where(b), 'a `break` leaves the work-list loop while `%s` may still hold unvisited variables (an entry that was already visited must be skipped with `continue`): '
+                         'in a network with a cycle the search answers "not equivalent" for variables that are connected' % todo)
+        for r in walk(body):
+            if r.get('k') == 'Return' and r.get('c'):
+                e = r['c'][0]
+                while e.get('k') in ('Construct', 'Cast', 'Paren') and len(e.get('c', [])) == 1:
+                    e = e['c'][0]
+                if e.get('k') == 'Bool' and not e.get('v'):
+                    rep.fail('C18.V1', g.short + '|work-list-abandoned', g.where(r), '`return false` inside the work-list loop abandons the entries still waiting in `%s`' % todo)
     for g in rec_fs:
         vis = [p for p in g.params if 'std::vector<' in p['t'] and p['t'].rstrip().endswith('&') and not p['t'].startswith('const')]
         rec_calls = [n for n in g.walk() if n.get('k') == 'Call' and g.key in F.callee_keys(n)]
@@ -174,6 +207,23 @@ def run(F, rep):
     for c in stores:
         v = c['c'][-1]
         rep.check(resvar is not None and v.get('k') == 'Ref' and v.get('d') == resvar['d'], 'C18.M1', 'memoised-value', f.where(c), 'the memo stores `%s`, not the search result' % render(v), 'stores the search result')
+
+    rep.rule('C18.K2', 'the memo of equivalence answers belongs to one analysed model and is read and written only by AnalyserModel::areEquivalentVariables: no other function copies, seeds or clears it '
+                       '(answers carried over from an earlier analysis are stale once the model\'s connections were edited in between)')
+    n_u = 0
+    for g in F.funcs.values():
+        if g.key == f.key:
+            continue
+        for m_ in g.walk():
+            if m_.get('k') == 'Member' and m_.get('n') == 'mCachedEquivalentVariables':
+                n_u += 1
+                rep.fail('C18.K2', '%s|mCachedEquivalentVariables' % g.short, g.where(m_), '%s touches the memo of AnalyserModel::areEquivalentVariables (`%s`): entries that were not computed by a search on the current connection graph can be returned'
+                         % (g.short, render(g.parent(m_) or m_)[:70]))
+    own = [m_ for m_ in f.walk() if m_.get('k') == 'Member' and m_.get('n') == 'mCachedEquivalentVariables']
+    if own:
+        rep.ok('C18.K2', 'owner|%s' % f.short, f.where(own[0]), '%d accesses, all inside the query itself' % len(own))
+    else:
+        rep.ok('C18.K2', 'owner|no memo', f.where(), 'the query keeps no memo')
 
     # ------------------------------------------------------------------ iterator validity in the equivalence lists
     rep.rule('C18.I1', 'in Variable::VariableImpl an iterator into mEquivalentVariables is not used after a call that can modify that list (cleanExpiredVariables, erase, push_back) made after the iterator was obtained')
